@@ -178,12 +178,12 @@ pub fn destroy_corpus() {
     std::mem::forget(world);
 }
 
-harness! { fn c05_iter_single_component() unwind(4) { corpus(0) } }
-harness! { fn c05_iter_two_components() unwind(4) { corpus(1) } }
-harness! { fn c05_iter_borrow_one_of() unwind(4) { corpus(2) } }
-harness! { fn c05_iter_component_and_one_of() unwind(4) { corpus(3) } }
-harness! { fn c05_iter_typed_entity() unwind(4) { corpus(4) } }
-harness! { fn c05_iter_borrow_wild_and_direct() unwind(4) { corpus(5) } }
-harness! { fn c05_find_unmatched() unwind(4) { find_corpus(false) } }
-harness! { fn c05_find_borrow_unmatched() unwind(4) { find_corpus(true) } }
-harness! { fn c05_iter_destroy_one_of() unwind(4) { destroy_corpus() } }
+harness! { fn c05_iter_single_component() unwind(6) { corpus(0) } }
+harness! { fn c05_iter_two_components() unwind(6) { corpus(1) } }
+harness! { fn c05_iter_borrow_one_of() unwind(6) { corpus(2) } }
+harness! { fn c05_iter_component_and_one_of() unwind(6) { corpus(3) } }
+harness! { fn c05_iter_typed_entity() unwind(6) { corpus(4) } }
+harness! { fn c05_iter_borrow_wild_and_direct() unwind(6) { corpus(5) } }
+harness! { fn c05_find_unmatched() unwind(6) { find_corpus(false) } }
+harness! { fn c05_find_borrow_unmatched() unwind(6) { find_corpus(true) } }
+harness! { fn c05_iter_destroy_one_of() unwind(6) { destroy_corpus() } }
